@@ -105,4 +105,14 @@ CHECKS = {
         note=COMMON_NOTE,
         technique="TLA+ operator semantics + TLC BFS case enumeration, replayed into operator API and Model.Run; defect model for the known finding",
         design_ref="DESIGN.md section 6 (C05)"),
+    "C06": dict(
+        text="Bounded-exhaustive on an exactly computable regime: the ONNX recurrences of RNN, GRU and LSTM are written in "
+             "spec/OpRecurrent.tla as state machines over time steps (state H, C; packed gate layouts iofc / zrh, bias halves, peepholes, "
+             "linear_before_reset); TLC enumerates sizes, every subset of optional inputs and every activation tuple, with weights that "
+             "differ per gate block so that any slot permutation changes the expected output, and checks as an invariant that whole = "
+             "split(k) for every split point (the splitting law of the recurrences). Each case is executed in three modes; split cases "
+             "feed the real final state of the first piece into the second (operator level and two Model.Run calls).",
+        note=COMMON_NOTE + " Exactness rests on sigmoid/tanh saturation at |x| >= 1024; trajectories with default activations on ordinary values are outside the claim.",
+        technique="TLA+ state-machine semantics of the recurrences + TLC BFS case enumeration with exact-regime guard, replayed into operator API and Model.Run",
+        design_ref="DESIGN.md section 6 (C06)"),
 }
